@@ -1,6 +1,6 @@
 """x_vectors — the test vectors of the testdata plugin, brought to the verified checker (property C17).
 
-generate(outdir)          run `python -m generator --plugin testdata --output-dir <outdir>` from the tree under check
+generate(outdir, model=)  run `python -m generator --plugin testdata --output-dir <outdir> [--model <file>]` from the tree under check
 parse_name(fn)            <MessageClass>-<True|False>-<hash>.json  ->  (class, label, hash) | None
 load_json(path)           JSON text -> Python value; an object with duplicate keys is kept as Dup (pairs preserved)
 Ref(mmview)               INDEPENDENT Python reference of the pinned strict reading (port of the round-0 prototype):
@@ -27,10 +27,11 @@ NAME_RE = re.compile(r"^([A-Za-z_][A-Za-z0-9_]*)-(True|False)-([0-9A-Za-z]+)\.js
 I32 = (-2**31, 2**31 - 1)
 
 
-def generate(outdir, timeout=1200):
-    """Run the testdata plugin of the tree under check. Returns (rc, tail of the log, seconds)."""
+def generate(outdir, timeout=1200, model=None):
+    """Run the testdata plugin of the tree under check (on the committed metamodel, or on the model file `model`) through the
+    real command line; `outdir` is used as it is (empty, or holding an earlier run). Returns (rc, tail of the log, seconds)."""
     t0 = time.time()
-    p = subprocess.run([V.PY, "-B", "-m", "generator", "--plugin", "testdata", "--output-dir", outdir],
+    p = subprocess.run([V.PY, "-B", "-m", "generator", "--plugin", "testdata", "--output-dir", outdir] + (["--model", model] if model else []),
                        cwd=V.REPO, env=V.repo_env(), capture_output=True, text=True, timeout=timeout)
     return p.returncode, (p.stdout[-1500:] + p.stderr[-1500:]), time.time() - t0
 
@@ -298,17 +299,18 @@ def cj_tab(j, S):
     raise TypeError(type(j))
 
 
-HDR = ("From LSP Require Import Base MM ValidB Strict.\nFrom Gen Require Import MMData.\nOpen Scope string_scope.\n"
-       "Set Printing Depth 1000000.\n")
+HDR_FOR = ("From LSP Require Import Base MM ValidB Strict.\nFrom Gen Require Import %s.\nOpen Scope string_scope.\n"
+           "Set Printing Depth 1000000.\n")
+HDR = HDR_FOR % "MMData"
 
 
-def shard_text(items, base):
+def shard_text(items, base, module="MMData"):
     """items: [(cls, label, json)] -> Coq source evaluating vector_code on each; prints [(index within the shard, code)] for
     code <> 0 (indexes stay small: a large unary nat overflows the stack when read back from the VM)."""
     S = StrTab()
     rows = ["Definition c%d := vector_code mm %d %s %s %s." % (i, FUEL, S(cls), "true" if lab else "false", cj_tab(j, S))
             for i, (cls, lab, j) in enumerate(items)]
-    return (HDR + S.defs() + "\n".join(rows) + "\nDefinition codes : list nat := [%s].\n" % "; ".join("c%d" % i for i in range(len(items)))
+    return (HDR_FOR % module + S.defs() + "\n".join(rows) + "\nDefinition codes : list nat := [%s].\n" % "; ".join("c%d" % i for i in range(len(items)))
             + "Definition bad := filter (fun p => negb (Nat.eqb (snd p) 0)) (combine (seq 0 (length codes)) codes).\n"
             + "Eval vm_compute in bad.\nEval vm_compute in (length bad, length codes).\n"
             + "(* kernel-checked when every label of the shard agrees with the verified checker *)\n"
@@ -331,23 +333,24 @@ def cleanup(path):
             pass
 
 
-_REF = None
+_REF = {}
 
 
-def _ref():
-    global _REF
-    if _REF is None:
+def _ref(doc_path=None):
+    """the Python reference for the committed metamodel, or for the (evolved) model document at doc_path"""
+    if doc_path not in _REF:
         from mmlib import MMView
-        _REF = Ref(MMView())
-    return _REF
+        _REF[doc_path] = Ref(MMView(path=doc_path) if doc_path else MMView())
+    return _REF[doc_path]
 
 
 def eval_shard(task):
-    """task = (shard name, base index, vector dir, [(fn, cls, label)], keep).
+    """task = (shard name, base index, vector dir, [(fn, cls, label)], keep [, (Gen module of the metamodel, its JSON document)]).
     Returns {"codes": {global index: code}, "ref": [reason or None per item], "proved": bool, "secs": float}; raises on machinery failure."""
-    name, base, vdir, files, keep = task
+    name, base, vdir, files, keep = task[:5]
+    module, doc_path = task[5] if len(task) > 5 and task[5] else ("MMData", None)
     t0 = time.time()
-    ref = _ref()
+    ref = _ref(doc_path)
     items, whys = [], []
     for fn, cls, lab in files:
         j = load_json(os.path.join(vdir, fn))
@@ -356,7 +359,7 @@ def eval_shard(task):
     path = os.path.join(V.PROPS_OUT, name + ".v")
     os.makedirs(V.PROPS_OUT, exist_ok=True)
     with open(path, "w", encoding="utf-8") as f:
-        f.write(shard_text(items, base))
+        f.write(shard_text(items, base, module))
     rc, out, err = coqc_nocache(path, V.COQ_TIMEOUT)
     try:
         m = re.search(r"=\s*(\[.*?\])\s*:\s*list \(nat \* nat\)", out, re.S)
@@ -377,9 +380,9 @@ def eval_shard(task):
 
 
 def scan_shard(task):
-    """task = (vector dir, [(fn, cls, label)]) -> [reason or None] by the Python reference only."""
-    vdir, files = task
-    ref = _ref()
+    """task = (vector dir, [(fn, cls, label)] [, JSON document of the metamodel]) -> [reason or None] by the Python reference only."""
+    vdir, files = task[:2]
+    ref = _ref(task[2] if len(task) > 2 else None)
     return [ref.why(cls, load_json(os.path.join(vdir, fn))) for fn, cls, lab in files]
 
 
